@@ -2580,16 +2580,20 @@ void updateBaseUnitCount(const ModelPtr &model,
             double exp;
             double mult;
             double expMult;
+            // What is handed down by the referencing unit counts once, whatever the number of children; the multiplier and
+            // the prefix of a child scale with the exponent of this units, the scale of what the child references with the
+            // exponent of the child too (as in Units::scalingFactor()).
+            multiplier += direction * logMult;
             for (size_t i = 0; i < u->unitCount(); ++i) {
                 u->unitAttributes(i, ref, pre, exp, expMult, id);
                 mult = std::log10(expMult);
                 if (!isStandardUnitName(ref)) {
-                    updateBaseUnitCount(model, unitMap, multiplier, ref, exp * uExp, logMult + mult * uExp + convertPrefixToInt(pre) * uExp, direction, depth + 1);
+                    updateBaseUnitCount(model, unitMap, multiplier, ref, exp * uExp, (mult + convertPrefixToInt(pre)) * uExp, direction, depth + 1);
                 } else {
                     for (const auto &iter : standardUnitsList.at(ref)) {
                         unitMap.at(iter.first) += direction * (iter.second * exp * uExp);
                     }
-                    multiplier += direction * (logMult + (standardMultiplierList.at(ref) + mult + convertPrefixToInt(pre)) * exp);
+                    multiplier += direction * (standardMultiplierList.at(ref) * exp + mult + convertPrefixToInt(pre)) * uExp;
                 }
             }
         }
